@@ -12,7 +12,7 @@ LEVEL = "other"
 MODULE = "PropC05"
 THEOREMS = ["C05_operators_total", "C05_division_by_zero_is_an_error", "C05_index_out_of_range_is_an_error",
             "C05_shift_total", "C05_compiler_never_panics", "C05_every_node_compiles_safely",
-            "C05_no_input_makes_the_compiler_panic", "C05_statement_runs_never_abort"]
+            "C05_no_input_makes_the_compiler_panic", "C05_statement_runs_never_abort", "C05_definition_never_faults"]
 
 PRELUDE = ["vi = 5", "vz = 0", "vf = 1.5", "vs = \"ab\"", "va = [1, 2]", "vb = true", "vfn = (x) -> x",
            "vbig = 9223372036854775807", "vneg = 0 - 9223372036854775807 - 1", "ve = []", "vnested = [[1], \"s\", vfn]"]
